@@ -125,6 +125,8 @@ var c08Noise = map[string]string{
 	"${{ «needs».«caller».«outputs».«cout» }}": "${{ «needs».«caller».«outputs».«cout» }} ${{ «needs».«caller».«outputs».nosuchout }} ${{ «steps».nosuchstep }}",
 	"          «ref»: main\n":                  "          «ref»: main\n          nosuchinput: 1\n",
 	"      «cin»: ${{":                         "      nosuchcin: 1\n      «cin»: ${{",
+	// untrusted inputs spelled with string indexes: reported in every letter case
+	"      - run: echo ${{ «contains»(«github».«event».«pull_request».«title», 'x') }}": "      - run: echo ${{ «github».«event».«pull_request»['«title»'] }} ${{ «github»['«head_ref»'] }} ${{ «github»['«event»']['«comment»']['«body»'] }}\n      - run: echo ${{ «contains»(«github».«event».«pull_request».«title», 'x') }}",
 }
 
 type c08Occ struct {
